@@ -129,6 +129,21 @@ func (in *Instrumenter) list(stmts []ast.Stmt) []ast.Stmt {
 			}
 		case *ast.GoStmt:
 			in.funcLits(s.Call)
+			// go f(x)  =>  { vt := verifNewThread(); go func() { verifThreadBegin(vt); defer verifThreadEnd(vt); f(x) }() }
+			in.N++
+			vt := ast.NewIdent("verifThreadID_")
+			out = append(out, &ast.BlockStmt{List: []ast.Stmt{
+				&ast.AssignStmt{Lhs: []ast.Expr{vt}, Tok: token.DEFINE, Rhs: []ast.Expr{&ast.CallExpr{Fun: ast.NewIdent("verifNewThread")}}},
+				&ast.GoStmt{Call: &ast.CallExpr{Fun: &ast.FuncLit{
+					Type: &ast.FuncType{Params: &ast.FieldList{}},
+					Body: &ast.BlockStmt{List: []ast.Stmt{
+						&ast.ExprStmt{X: &ast.CallExpr{Fun: ast.NewIdent("verifThreadBegin"), Args: []ast.Expr{vt}}},
+						&ast.DeferStmt{Call: &ast.CallExpr{Fun: ast.NewIdent("verifThreadEnd"), Args: []ast.Expr{vt}}},
+						&ast.ExprStmt{X: s.Call},
+					}},
+				}}},
+			}})
+			continue
 		case *ast.IfStmt:
 			n = in.countSync(s.Init) + in.countSync(s.Cond)
 			in.stmt(s)
